@@ -56,6 +56,10 @@ type RunCtx struct {
 	dset   map[uint64]bool
 	iset   map[uint64]bool
 	maxV   int
+	// Remap, if set, may re-attribute a violation before it is recorded (a
+	// workload shared between properties reports under the property it was
+	// written for).
+	Remap func(v *VReport)
 }
 
 // Thorough reports whether the thorough tier is running.
@@ -118,6 +122,9 @@ func (c *RunCtx) Counters(m map[string]uint64) {
 // Violation records a violation of the property under check (or counts one of
 // another property).
 func (c *RunCtx) Violation(v VReport) {
+	if c.Remap != nil {
+		c.Remap(&v)
+	}
 	if v.Prop != c.Prop && os.Getenv("VG_ALLPROPS") == "" {
 		if c.Rep.OtherProps == nil {
 			c.Rep.OtherProps = map[string]int64{}
